@@ -18,29 +18,38 @@ Open Scope N_scope.
 
 (* The full first sentence, literally, over everything report_unbuilt / serve look at
    (`inv` = a requested target was invalid; the pending clause is read for builds that ran a
-   build phase, i.e. inv = false). *)
+   build phase, i.e. inv = false):
+     FAILED bit  <->  an attached step is FAILED \/ a glob match is a file a step builds \/ inv
+     inv = false -> (PENDING bit <-> not draining /\ |U| > 0)
+     exit status 0 -> no invalid target /\ nothing_wrong. *)
 Definition C19_exit_status_full : Prop :=
   forall (inv : bool) (i : ru_in), exit_status_as_stated inv i.
 
-(* The literal sentence is FALSE of the code (finding D7): a glob match that a step builds does
-   not set the FAILED bit when the return code is already non-zero (PENDING, WARNING for a missing
-   target) or when the scheduler is draining. *)
-Theorem C19_exit_status_full_refuted :
-  exists inv i, ~ exit_status_as_stated inv i /\
-    0 < ru_glob_err i /\ has_bit (serve_rc inv i) rc_FAILED = false /\ serve_rc inv i = rc_PENDING.
-Proof. exact exit_status_as_stated_refuted. Qed.
+(* Proved for all inputs since fix 4c893f7 (finding D7: the late glob validation used to be skipped
+   once the return code was non-zero or the scheduler was draining). *)
+Theorem C19_exit_status_full_holds : C19_exit_status_full.
+Proof. exact exit_status_full. Qed.
 
-(* Proved reading (partial): the literal sentence holds for exactly those builds in which the glob
-   error is not masked; masked = a glob error exists, no step failed, no invalid target, and the
-   build drained, or left a required step pending, or missed a requested target. *)
-Theorem C19_exit_status_partial :
-  forall (inv : bool) (i : ru_in), exit_status_as_stated inv i <-> ~ glob_error_masked inv i.
-Proof. exact as_stated_iff_not_masked. Qed.
+(* The guard chain as it was before the fix does NOT satisfy the sentence: a glob match that a
+   step builds next to a pending step / a missing target / a drain left the FAILED bit clear
+   (exit status PENDING, WARNING, DRAINED), where the current chain sets it.  Kept to name a
+   regression. *)
+Theorem C19_prefix_guard_chain_refuted :
+  (exists i, 0 < ru_glob_err i /\ has_bit (report_unbuilt_prefix i) rc_FAILED = false
+             /\ report_unbuilt_prefix i = rc_PENDING /\ has_bit (report_unbuilt i) rc_FAILED = true) /\
+  (exists i, 0 < ru_glob_err i /\ report_unbuilt_prefix i = rc_WARNING /\ has_bit (report_unbuilt i) rc_FAILED = true) /\
+  (exists i, 0 < ru_glob_err i /\ report_unbuilt_prefix i = rc_DRAINED /\ has_bit (report_unbuilt i) rc_FAILED = true).
+Proof. exact prefix_variant_refuted. Qed.
+
+(* ... and the fix changed nothing else: without such a match both chains agree. *)
+Theorem C19_fix_only_adds_glob_errors :
+  forall i, ru_glob_err i = 0 -> report_unbuilt i = report_unbuilt_prefix i.
+Proof. exact prefix_differs_only_on_glob_errors. Qed.
 
 (* returncode_bits: what the code does, bit by bit, for all inputs. *)
 Theorem C19_returncode_failed_bit :
   forall inv i, has_bit (serve_rc inv i) rc_FAILED =
-    inv || (0 <? ru_nfailed i) || (glob_check_reached i && (0 <? ru_glob_err i)).
+    inv || (0 <? ru_nfailed i) || (0 <? ru_glob_err i).
 Proof. exact failed_bit_exact. Qed.
 
 Theorem C19_returncode_pending_bit :
@@ -178,8 +187,9 @@ Example C19_example_partition :
   count_kind K_ROOT_RESOURCE (attributed ex_snap) = 1 /\
   count_kind K_ROOT_RUNNABLE (attributed ex_snap) = 1 /\
   N.of_nat (length (cyclic_ids ex_snap)) = 4 /\
-  report_unbuilt (ru_of_snap ex_snap false 0 0 0 1) = rc_PENDING /\
-  report_unbuilt (ru_of_snap ex_snap true 0 0 0 1) = rc_DRAINED.
+  report_unbuilt (ru_of_snap ex_snap false 0 0 0 1) = N.lor rc_FAILED rc_PENDING /\
+  report_unbuilt (ru_of_snap ex_snap true 0 0 0 1) = N.lor rc_FAILED rc_DRAINED /\
+  report_unbuilt (ru_of_snap ex_snap false 0 0 1 0) = rc_PENDING.
 Proof.
   split.
   - unfold wf_snap. cbn. repeat constructor; cbn; intuition discriminate.
@@ -188,5 +198,7 @@ Qed.
 
 Example C19_example_zero :
   serve_rc false (mk_ru 0 false 0 0 0 0 0) = 0 /\ serve_rc true (mk_ru 0 false 0 0 0 0 0) = rc_FAILED /\
-  serve_rc false (mk_ru 0 false 0 0 0 0 1) = rc_FAILED /\ serve_rc false (mk_ru 0 false 0 1 0 0 1) = rc_WARNING.
+  serve_rc false (mk_ru 0 false 0 0 0 0 1) = rc_FAILED /\
+  serve_rc false (mk_ru 0 false 0 1 0 1 1) = N.lor rc_FAILED rc_WARNING /\
+  serve_rc false (mk_ru 0 false 0 0 0 1 0) = rc_WARNING.
 Proof. vm_compute. repeat split; reflexivity. Qed.
